@@ -5,6 +5,7 @@ import OV.Model.C08Reduce
 import OV.Model.C08IntArith
 import OV.Model.C08Creation
 import OV.Model.C08Attr
+import OV.Model.C08Misc
 import OV.Gen.C08Trace
 import OV.Lemmas.C08
 /-!
@@ -104,6 +105,32 @@ theorem aten_slice_len_agrees (d : Int) (start stop step : Option Int)
       = (slice.specLen d start stop step).toNat :=
   OV.Lemmas.C08.slice_len d start stop step hd0 hs
 
+/-- `aten_slice` at shape level: wherever `aten::slice.Tensor` accepts (rank ≥ 1, valid dim, positive step), the emitted
+`Slice` with the filled-in defaults has PyTorch's shape — every shape, every optional bound. -/
+theorem aten_slice_agrees (s : Shape) (dim : Int) (start stop step : Option Int) (out : Shape)
+    (h : slice.spec s dim start stop step = some out) : slice.model s dim start stop step = some out :=
+  OV.Lemmas.C08.slice_agrees s dim start stop step out h
+
+example : slice.spec [5, 3] 0 (some 1) none (some 2) = some [2, 3] := by decide
+
+/-- `aten_slice_scatter`: the shape bookkeeping (`src` must be the shape of the slice, the result is `self`'s shape)
+agrees with `torch.slice_scatter` wherever PyTorch accepts. -/
+theorem aten_slice_scatter_agrees (s src : Shape) (dim : Int) (start stop : Option Int) (step : Int) (out : Shape)
+    (h : slice_scatter.spec s src dim start stop step = some out) :
+    slice_scatter.model s src dim start stop step = some out :=
+  OV.Lemmas.C08.slice_scatter_agrees s src dim start stop step out h
+
+/-- `aten_gather`: the four trace-time cases (0-d self × 0-d index) give `torch.gather`'s shape wherever PyTorch accepts. -/
+theorem aten_gather_agrees (s idx : Shape) (dim : Int) (out : Shape)
+    (h : gather.spec s idx dim = some out) : gather.model s idx dim = some out :=
+  OV.Lemmas.C08.gather_agrees s idx dim out h
+
+example : gather.spec [2, 3, 4] [1, 2, 2] (-1) = some [1, 2, 2] := by decide
+
+/-- `aten_topk`: output shapes for every rank ≥ 1, every `k`, `dim`. -/
+theorem aten_topk_agrees (s : Shape) (k dim : Int) (hr : s.length ≠ 0) : topk.model s k dim = topk.spec s k dim :=
+  OV.Lemmas.C08.topk_agrees s k dim hr
+
 /-- `aten_narrow`, for every axis size, every non-negative in-range start and every length:
 `Slice(start, start+length)` has exactly `length` elements.  The hypothesis `0 ≤ start` is forced
 (see `aten_narrow_negative_start_refuted`). -/
@@ -161,6 +188,23 @@ theorem aten_flip_len_agrees (d : Int) (hd0 : 0 ≤ d) (hd : d < INT64_MAX) :
     (sliceLen d (-1) INT64_MIN (-1) : Int) = d :=
   OV.Lemmas.C08.flip_len d hd0 hd
 
+/-- **Element map of `aten_flip`** along one axis: `Slice(starts=-1, ends=INT64_MIN, steps=-1)` reads the source
+indices `d-1, …, 0` — PyTorch's flip — for every axis size below the int64 sentinel.  (For rank > 1 `Slice` acts on
+each named axis independently: A-op.) -/
+theorem aten_flip_index_map (d : Nat) (hd : (d : Int) < INT64_MAX) : flip.modelIdx d = flip.specIdx d :=
+  OV.Lemmas.C08.flip_idx d hd
+
+example : flip.modelIdx 3 = [2, 1, 0] := by decide
+
+/-- **Element map of `aten_roll`** along one axis (after fix 34e2b8e): `Concat(Slice(x, d - s', Size), Slice(x, 0, d - s'))`
+with `s' = shift mod d` reads, at position `i`, the source element `(i - shift) mod d` — PyTorch's roll — for **every**
+axis size `d > 0`, every shift (negative, beyond `d`) and every over-long slice end `big ≥ d`. -/
+theorem aten_roll_index_map (d big : Nat) (shift : Int) (hd : 0 < d) (hbig : d ≤ big) :
+    roll.stepIdx d big (roll.redShift d shift) = roll.specIdx d shift :=
+  OV.Lemmas.C08.roll_idx d big shift hd hbig
+
+example : roll.stepIdx 5 5 (roll.redShift 5 (-7)) = [2, 3, 4, 0, 1] := by decide
+
 /-- `aten_roll`, one `(shift, dim)` step: the two slices partition the axis (their lengths add up to
 `d`) whenever `-d ≤ shift ≤ 2d`. -/
 theorem aten_roll_len_agrees_partial (d big : Nat) (shift : Int) (hbig : d ≤ big)
@@ -195,6 +239,15 @@ theorem aten_chunk_uneven_fixed :
     chunk.model [6] 4 0 = chunk.spec [6] 4 0 ∧ chunk.model [5] 4 0 = chunk.spec [5] 4 0
     ∧ chunk.model [5, 0] 5 1 = chunk.spec [5, 0] 5 1 := by decide
 
+/-- `aten_chunk` (after fix f427d44), **every** shape, `dim` and `chunks ≥ 1`: wherever PyTorch accepts the call, the
+emitted `Identity` / `Split(num_outputs)` / list of `Slice`s has exactly `torch.chunk`'s pieces — the ceil rule
+`size = ceil(d/chunks)`, fewer than `chunks` pieces, the short last piece and the empty axis included. -/
+theorem aten_chunk_agrees (s : Shape) (chunks : Nat) (dim : Int) (out : List Shape)
+    (h : chunk.spec s chunks dim = some out) : chunk.model s chunks dim = some out :=
+  OV.Lemmas.C08.chunk_agrees s chunks dim out h
+
+example : chunk.spec [7, 3] 3 0 = some [[3, 3], [3, 3], [1, 3]] := by decide
+
 /-- `aten_chunk` when the axis divides evenly (`d = q·n`): `Split(num_outputs=n)` yields PyTorch's `n` pieces of
 `q`, for all `q ≥ 1`, `n ≥ 2`. -/
 theorem aten_chunk_even_agrees_partial (q n : Nat) (hq : 0 < q) (hn : 1 < n) :
@@ -202,11 +255,18 @@ theorem aten_chunk_even_agrees_partial (q n : Nat) (hq : 0 < q) (hn : 1 < n) :
   OV.Lemmas.C08.chunk_even q n hq hn
 
 /-- `aten_split` sizes for every non-empty axis and every positive split size: `SplitToSequence`'s full chunks
-+ remainder are PyTorch's `num = ceil(d/size)` pieces with last `size - (size·num - d)`.  (`d = 0` is the
-finding below.) -/
++ remainder are PyTorch's `num = ceil(d/size)` pieces with last `size - (size·num - d)`. -/
 theorem aten_split_sizes_agree_partial (d c : Nat) (hd : 0 < d) (hc : 0 < c) :
     splitScalar d c = split.specSizes d c :=
   OV.Lemmas.C08.split_sizes d c hd hc
+
+/-- `aten_split` (after fix 71e4aaa), every shape, every `dim`, every split size (the empty axis and `size = 0`
+included): wherever PyTorch accepts the call the emitted sequence has PyTorch's pieces. -/
+theorem aten_split_agrees (s : Shape) (size dim : Int) (out : List Shape)
+    (h : split.spec s size dim = some out) : split.model s size dim = some out :=
+  OV.Lemmas.C08.split_agrees s size dim out h
+
+example : split.spec [7, 3] 3 0 = some [[3, 3], [3, 3], [1, 3]] := by decide
 
 /-- `aten_roll` with one `(shift, dim)` pair — any rank ≥ 1, any valid `dim` (negative included, fix e681d51),
 **any shift** (fix 34e2b8e), no zero-size dim hiding the axis (`0 < d ≤ numel`): the result has the input's shape. -/
@@ -243,6 +303,17 @@ theorem aten_broadcast_to_agrees (s : Shape) (size : List Int) (out : Shape)
     (h : broadcast_to.spec s size = some out) : broadcast_to.model s size = some out :=
   OV.Lemmas.C08.broadcast_to_agrees s size out h
 
+/-- `aten_atleast_1d / 2d / 3d`: the `Reshape([1,-1])`, `Reshape([1,-1,1])`, `Unsqueeze(-1)` branches give
+`torch.atleast_nd`'s shape for every input shape (rank 0, empty 1-D tensors included). -/
+theorem aten_atleast_agrees (n : Nat) (s : Shape) (hn : n = 1 ∨ n = 2 ∨ n = 3) :
+    atleast.model n s = atleast.spec n s :=
+  OV.Lemmas.C08.atleast_agrees n s hn
+
+/-- FINDING C08-repeat-interleave-empty: `repeat_interleave(x[4,0], 2, -2)` — PyTorch `[8,0]`, the graph `[0,2]`. -/
+theorem aten_repeat_interleave_empty_refuted :
+    repeat_interleave.model [4, 0] 2 (some (-2)) = some [0, 2]
+    ∧ repeat_interleave.spec [4, 0] 2 (some (-2)) = some [8, 0] := by decide
+
 /-- `aten_t`: every shape of rank ≤ 2. -/
 theorem aten_t_agrees (s : Shape) (h : s.length ≤ 2) : t.model s = t.spec s := by
   match s, h with
@@ -271,6 +342,16 @@ theorem aten_flatten_op_branches_agree (a b : Nat) (rest : Shape) :
     ∧ flatten.model [a] 0 (-1) = flatten.spec [a] 0 (-1)
     ∧ flatten.model [] 0 (-1) = flatten.spec [] 0 (-1) :=
   OV.Lemmas.C08.flatten_branches a b rest
+
+/-- `aten_unflatten` (after fix 6c44051): for every shape (0-size dims included), every `dim` and every `sizes` (with or
+without one `-1`), wherever PyTorch accepts the call the three trace-time cases (head empty / tail empty / both) build
+a `Reshape(allowzero=1)` target that yields PyTorch's shape.  (`rank ≤ INT64_MAX` is the sentinel used as slice end.) -/
+theorem aten_unflatten_agrees (s : Shape) (dim : Int) (sizes : List Int) (out : Shape)
+    (hmax : (s.length : Int) ≤ INT64_MAX)
+    (h : unflatten.spec s dim sizes = some out) : unflatten.model s dim sizes = some out :=
+  OV.Lemmas.C08.unflatten_agrees s dim sizes out hmax h
+
+example : unflatten.spec [2, 12, 2] (-2) [3, -1] = some [2, 3, 4, 2] := by decide
 
 /-- Regression guard (was finding C08-unflatten-zero-infer, fix 6c44051): `unflatten(x[0,0,5], 1, (1,-1))`. -/
 theorem aten_unflatten_zero_infer_fixed :
@@ -324,11 +405,12 @@ theorem aten_stack_agrees (s : Shape) (n : Nat) (dim : Int) :
     stack.model (List.replicate (n + 1) s) dim = stack.spec (List.replicate (n + 1) s) dim :=
   OV.Lemmas.C08.stack_agrees s n dim
 
-/-- `aten_tile` when `dims` is not longer than the rank (the left-padding branch and the equal-length branch):
-same shape, same refusals as `torch.tile`, all shapes. -/
-theorem aten_tile_agrees_partial (s : Shape) (dims : List Int) (h : dims.length ≤ s.length) :
-    tile.model s dims = tile.spec s dims :=
-  OV.Lemmas.C08.tile_agrees s dims h
+/-- `aten_tile`, every shape and every `dims` (shorter, equal, longer than the rank — the `Reshape(allowzero=1)`
+left-padding branch included): same shape and same refusals as `torch.tile`. -/
+theorem aten_tile_agrees (s : Shape) (dims : List Int) : tile.model s dims = tile.spec s dims :=
+  OV.Lemmas.C08.tile_agrees_full s dims
+
+example : tile.model [2, 3] [2, 1, 2] = some [2, 2, 6] := by decide
 
 /-- Regression guard (was finding C08-cat-all-empty): `cat([e[0]])`. -/
 theorem aten_cat_all_empty_fixed : cat.model [[0]] (-1) = cat.spec [[0]] (-1) := by decide
@@ -441,9 +523,28 @@ theorem reduce_shape_agrees (s : Shape) (dims : List Int) (keep : Bool) (out : S
     (hr : s.length ≠ 0) (h : torchReduce s dims keep = some out) : reduceOp s dims keep = some out :=
   OV.Lemmas.C08.reduce_agrees s dims keep out hr h
 
+/-- `aten_all_dims` / `aten_any_dims` with a non-empty dim list: the loop of single-axis `keepdim=True` reductions
+followed by `Squeeze(dims)` has PyTorch's output shape wherever PyTorch accepts the dims — every rank ≥ 1, every list
+(negative dims, any order), both `keepdim`. -/
+theorem aten_all_dims_agrees (s : Shape) (ds : List Int) (keep : Bool) (out : Shape)
+    (hr : s.length ≠ 0) (hne : ds ≠ [])
+    (h : torchReduce s ds keep = some out) : all_dims.model s (some ds) keep = some out :=
+  OV.Lemmas.C08.all_dims_agrees s ds keep out hr hne h
+
+example : torchReduce [2, 3, 4] [0, -1] false = some [3] := by decide
+
 /-- Regression guard (was finding C08-argmax-keepdim-nodim, fix 3081284): `argmax(x[2,3], keepdim=True)`. -/
 theorem aten_argmax_keepdim_nodim_fixed :
     argmax.model [2, 3] none true = argmax.spec [2, 3] none true
     ∧ argmax.model [1, 2, 1, 4] none true = argmax.spec [1, 2, 1, 4] none true := by decide
+
+/-- `aten_argmax` / `aten_argmin` (after fix 3081284): for every shape (rank 0, empty), every `dim` (`None`, negative,
+out of range) and both `keepdim`, the emitted Reshape/ArgMax/Squeeze/Reshape chain has PyTorch's output shape and
+refuses exactly when PyTorch refuses (empty reduction). -/
+theorem aten_argmax_agrees (s : Shape) (dim : Option Int) (keep : Bool) :
+    argmax.model s dim keep = argmax.spec s dim keep :=
+  OV.Lemmas.C08.argmax_agrees s dim keep
+
+example : argmax.model [2, 3] (some (-1)) true = some [2, 1] := by decide
 
 end OV.Props.C08
